@@ -3,6 +3,11 @@
   definitions that /verif/extract/funcs.go TRANSLATES from the Go sources (Sipsp/Generated/Funcs.lean).
   Trusted (small, read it): Go's `x << n` / `x >> n` on an unsigned w-bit value give 0 once n ≥ w (Lean's `<<<` on
   UIntN reduces the count modulo w); a conversion of an `int` to an unsigned w-bit type keeps the low w bits.
+  Go's `int` is translated to Lean's `Int` (mathematical integers). ASSUMPTION: the values stay below 2^62 in magnitude
+  (they are offsets into buffers of at most 65,535 bytes and small counters); the translator accepts on `int` nothing but
+  comparisons, `+` / `-` with a constant operand and conversions from / to unsigned types, and rejects `*`, bit
+  operations, shifts, negation and the narrower signed types, so no accepted function can leave that range from inputs
+  inside it. Go's `uint` is taken as 64 bits wide (the platform the library is built for here: linux/amd64).
   Everything else in the translated subset (`+ - * & | ^ &^` with wrap-around on UIntN, comparisons, `&& || !`,
   widening / narrowing conversions between unsigned types) is the Lean core operator with the same semantics.
 -/
